@@ -218,7 +218,7 @@ def generate(run_seed, tier):
     mcfg['contribs'] = ['Absorption'] + [x for x in ('CIA', 'Rayleigh')
                                          if c.random() < 0.4]
     R.add_extra_contribs(c, mcfg, p=0.2)
-    mcfg['nlayers'] = c.randint(3, 6)
+    mcfg['nlayers'] = c.randint(2, 6)
     mcfg['opac']['ngrid'] = c.randint(10, 24)
     fit = S.gen_fit(c, mcfg, nmax=3, rich=True)
     derived = [d for d in DERIVED_POOL if c.random() < 0.5]
